@@ -343,9 +343,9 @@ fn svd_solve_run(a: &Rows, b: &Rows, w32: bool, use_mut: bool) -> Result<Rows, S
 // ------------------------------------------------------------------------------------------
 // oracles (property text).  Each returns a list of (clause, message) violations.
 // ------------------------------------------------------------------------------------------
-const C_FACT: f64 = 16.0; // reconstruction: C_FACT*(m+n)*eps*|A|_F
-const C_ORTH: f64 = 16.0; // orthonormality: C_ORTH*(m+n)*eps
-const C_SOLVE: f64 = 32.0; // residuals: C_SOLVE*(m+n)*eps*(|A||X|+|B|)
+const C_FACT: f64 = 8.0; // reconstruction: C_FACT*(m+n)*eps*|A|_F
+const C_ORTH: f64 = 8.0; // orthonormality: C_ORTH*(m+n)*eps
+const C_SOLVE: f64 = 8.0; // residuals: C_SOLVE*(m+n)*eps*(|A||X|+|B|)
 
 struct Ratios {
     worst: std::collections::BTreeMap<String, f64>,
@@ -612,7 +612,15 @@ fn oracle_svd(a: &Rows, w32: bool, rt: &mut Ratios) -> Viol {
                 let tail = o.s[m..].iter().fold(0.0f64, |x, y| x.max(y.abs()));
                 chk(&mut v, rt, "svd_wide_tail", tail, C_FACT * (m + n) as f64 * eps * na);
             }
-            chk(&mut v, rt, "svd_U_orthonormal", orth_err(&o.u, k), C_ORTH * (m + n) as f64 * eps);
+            // columns of U that belong to singular values above the noise level must be orthonormal; for a
+            // wide matrix the n - m trailing columns belong to zero singular values and are not determined
+            // (when cond*(m+n)*eps is not small the smallest genuine values are at the noise level as well)
+            let thr = C_FACT * (m + n) as f64 * eps * na;
+            let k_eff = if n > m { (0..k).take_while(|&j| o.s[j] > 4.0 * thr).count() } else { k };
+            if n > m && k_eff < k {
+                rt.see("svd_wide_columns_at_noise_level", (k - k_eff) as f64);
+            }
+            chk(&mut v, rt, "svd_U_orthonormal", orth_err(&o.u, k_eff), C_ORTH * (m + n) as f64 * eps);
             chk(&mut v, rt, "svd_V_orthonormal", orth_err(&o.v, n), C_ORTH * (m + n) as f64 * eps);
             let us: Rows = o.u.iter().map(|r| r.iter().zip(&o.s).map(|(x, s)| x * s).collect()).collect();
             let e = resid(a, &us, &transpose(&o.v));
@@ -652,7 +660,18 @@ fn oracle_svd_solve_rd(bf: &Rows, cf: &Rows, b: &Rows, w32: bool, rt: &mut Ratio
         Ok(xfull) => {
             let x = top_rows(&xfull, n);
             if !all_finite(&x) {
-                v.push(("svd_solve_rankdef".into(), "solution has non-finite entries".into()));
+                // KNOWN_FINDINGS id=svd-rankdef-underflow-nan: exact rank deficiency, non-finite result, and the
+                // returned singular values decay into the subnormal range
+                let tiny = if w32 { 1e-30 } else { 1e-250 };
+                let underflow = match svd_run(&a, w32) {
+                    Ok(o) => o.s.len() > 0 && o.s.iter().any(|s| *s > 0.0 && *s < tiny * o.s[0]),
+                    Err(_) => false,
+                };
+                if underflow {
+                    v.push(("known:svd-rankdef-underflow-nan".into(), format!("svd_solve of an exactly rank-{} {}x{} {} matrix returned non-finite entries (singular values decay into the subnormal range)", cf.len(), a.len(), n, wname(w32))));
+                } else {
+                    v.push(("svd_solve_rankdef".into(), "solution has non-finite entries".into()));
+                }
                 return v;
             }
             normal_eq(&mut v, rt, "svd_solve_rankdef_lsq", &a, &x, b, eps_of(w32));
@@ -940,7 +959,12 @@ fn gen_neg_eig(rng: &mut Rng, n: usize, w32: bool) -> Rows {
 // ------------------------------------------------------------------------------------------
 fn report(out: &mut Out, viol: Viol, input: Value) {
     for (clause, what) in viol {
-        out.fail(&clause, &what, input.clone());
+        if let Some(id) = clause.strip_prefix("known:") {
+            out.known(id, &what);
+            out.count(&format!("known:{}", id));
+        } else {
+            out.fail(&clause, &what, input.clone());
+        }
     }
 }
 fn key_of(tag: u64, a: &Rows, b: Option<&Rows>, w32: bool) -> u64 {
@@ -1031,7 +1055,7 @@ fn regression_corpus(out: &mut Out, rt: &mut Ratios) {
 
 fn search(out: &mut Out, rt: &mut Ratios, rng: &mut Rng, thorough: bool) {
     let max = 40usize;
-    let rounds = if thorough { 1400 } else { 220 };
+    let rounds = if thorough { 12000 } else { 1500 };
     for _ in 0..rounds {
         let w32 = rng.chance(0.35);
         // ---- LU: square, non-singular, cond <= 1e6 ----
@@ -1098,8 +1122,8 @@ fn search(out: &mut Out, rt: &mut Ratios, rng: &mut Rng, thorough: bool) {
         }
         // ---- SVD solve, exactly rank deficient: A = B*C with small integers ----
         {
-            let n = rng.usize_in(2, 12);
-            let m = rng.usize_in(n, 16);
+            let n = if rng.chance(0.7) { rng.usize_in(2, 12) } else { rng.usize_in(2, 40) };
+            let m = rng.usize_in(n, (n + 6).min(40));
             let r = rng.usize_in(1, n - 1);
             let bi: Vec<Vec<i64>> = (0..m).map(|_| (0..r).map(|_| rng.int(-3, 3)).collect()).collect();
             let ci: Vec<Vec<i64>> = (0..r).map(|_| (0..n).map(|_| rng.int(-3, 3)).collect()).collect();
@@ -1331,6 +1355,18 @@ fn main() {
         let v = read_replay(path);
         let input = if v.get("input").is_some() { v["input"].clone() } else { v.clone() };
         let viol = eval_entry(&input, &mut rt);
+        if std::env::var("C01_DEBUG").is_ok() {
+            let w32 = input["f32"].as_bool().unwrap_or(false);
+            let am = rows_from_json(&input["a"]);
+            if let Ok(o) = svd_run(&am, w32) {
+                println!("debug: s = {:?}", o.s);
+                println!("debug: U = {:?}", o.u);
+                println!("debug: V = {:?}", o.v);
+            }
+        }
+        let viol: Viol = viol.into_iter().filter(|(c, w)| {
+            if c.starts_with("known:") { println!("replay: {} — {}", c, w); false } else { true }
+        }).collect();
         if viol.is_empty() {
             println!("replay: property holds on this input");
             std::process::exit(0);
@@ -1348,6 +1384,6 @@ fn main() {
     let mut srng = rng.fork();
     search(&mut out, &mut rt, &mut srng, a.thorough);
     out.set("worst_error_over_tolerance", json!(rt.worst));
-    out.set("tolerances", json!({"reconstruct": "16*(m+n)*eps*|A|_F", "orthonormal": "16*(m+n)*eps", "solve": "32*(m+n)*eps*(|A|_F|X|_F+|B|_F)", "normal_equations": "32*(m+n)*eps*|A|_F*(|A|_F|X|_F+|B|_F)"}));
+    out.set("tolerances", json!({"reconstruct": "8*(m+n)*eps*|A|_F", "orthonormal": "8*(m+n)*eps", "solve": "8*(m+n)*eps*(|A|_F|X|_F+|B|_F)", "normal_equations": "8*(m+n)*eps*|A|_F*(|A|_F|X|_F+|B|_F)"}));
     out.finish(&a.out);
 }
